@@ -52,7 +52,7 @@ type Actor struct {
 
 func (a Actor) String() string { return a.Bech32 }
 
-var actorNames = []string{"auc1", "auc2", "bid1", "bid2", "bid3", "out1", "donor", "val"}
+var actorNames = []string{"auc1", "auc2", "bid1", "bid2", "bid3", "out1", "donor", "poor", "val"}
 
 // Actors in a fixed order; identical in every process.
 var Actors = func() map[string]Actor {
